@@ -5,6 +5,7 @@ All statements quantify over every configuration (maxInFlight, timeout), every
 clock and every operation list of any length.
 -/
 import LA.Proofs.Reasm
+import LA.Proofs.StateFacts
 
 namespace LA.Reasm
 
@@ -160,3 +161,9 @@ theorem C01_no_split_trace (maxSize timeout : Int) (ops : List Op) (m m' : Msg) 
     exact key p (hsuf.subset hp)
 
 end LA.Reasm
+
+/-! ### the code keeps nothing between calls that the model does not have -/
+
+/-- Outside `init`, no function of the root package writes a package-level variable, takes the address of one or calls a
+sync/atomic method on one (regenerated list, see LA.Proofs.StateFacts): all state is in the object the model is given. -/
+theorem C01_state_is_in_the_object : LA.StateFacts.ofPkg "" = [] := by decide
